@@ -3,6 +3,8 @@ package props
 import (
 	"encoding/json"
 	"fmt"
+	"strconv"
+	"strings"
 	"testing"
 
 	"pgregory.net/rapid"
@@ -238,4 +240,83 @@ func TestC18_Funcs(t *testing.T) {
 			})
 		}
 	})
+}
+
+// C18 (deep results): an expression can build a value nested deeper than its
+// input (every nested multi-select adds a level). Such a result must still be
+// accepted as input: Search(e2, Search(e1, d)) equals Search(e1 | e2, d) for
+// results nested 100 ... 15,000 levels deep. (Serialisation is not judged at
+// these depths: encoding/json itself refuses to read back more than 10,000
+// levels.)
+func TestC18_Deep(t *testing.T) {
+	c := collector("C18", "deep")
+	shard, _ := strconv.Atoi(getenv("VERIF_SHARD", "0"))
+	nshards, _ := strconv.Atoi(getenv("VERIF_NSHARDS", "1"))
+	i := 0
+	for _, kind := range []string{"list", "hash", "mixed", "to_array"} {
+		for _, n := range []int{100, 9999, 10000, 10001, 15000} {
+			for _, e2 := range []string{"@", "length(@)", "type(@)", "[0] == [0]"} {
+				i++
+				if i%nshards != shard {
+					continue
+				}
+				c.Case()
+				call := run.Call{API: "search", Expr: "deepresult:" + kind + ":" + strconv.Itoa(n) + ":" + e2}
+				run.Watch(c, "deep", call)
+				if msg := c18DeepVerdict(kind, n, e2); msg != "" {
+					c.Fail(t, run.Replay{Check: "deep", Kind: "custom:c18-deep", Calls: []run.Call{call}, Message: fmt.Sprintf("%s nested %d deep, then %s: %s", kind, n, e2, truncate(msg, 400))}, kind)
+					return
+				}
+				c.NonTrivial(kind+strconv.Itoa(n)+e2, func() any { return map[string]any{"construct": kind, "depth": n, "e2": e2} })
+			}
+		}
+	}
+}
+
+func c18DeepVerdict(kind string, n int, e2 string) string {
+	var e1 string
+	switch kind {
+	case "list":
+		e1 = strings.Repeat("[", n) + "a" + strings.Repeat("]", n)
+	case "hash":
+		e1 = strings.Repeat("{k: ", n) + "a" + strings.Repeat("}", n)
+	case "mixed":
+		e1 = strings.Repeat("[{k: ", n/2) + "a" + strings.Repeat("}]", n/2)
+	default:
+		e1 = strings.Repeat("to_array(", n) + "[a]" + strings.Repeat(")", n) // to_array of an array is the array: depth 1
+	}
+	doc := func() any { return map[string]any{"a": []any{json.Number("1")}} }
+	o1 := run.Search(e1, doc())
+	if o1.Panic != "" {
+		return "panic: " + truncate(o1.Panic, 200)
+	}
+	if o1.Failed {
+		return "e1 fails: " + truncate(o1.String(), 200)
+	}
+	o2 := run.Search(e2, o1.Raw)
+	op := run.Search("("+e1+") | "+e2, doc())
+	if o2.Panic != "" || op.Panic != "" {
+		return "panic: " + truncate(o2.Panic+op.Panic, 200)
+	}
+	if o2.Failed && !op.Failed {
+		return "the result of e1 is not accepted as input of e2: " + truncate(o2.String(), 200)
+	}
+	if msg := run.SameOutcome(o2, op, false); msg != "" {
+		return "search(e2, search(e1, d)) differs from search(e1 | e2, d): " + truncate(msg, 300)
+	}
+	return ""
+}
+
+func init() {
+	customReplays["custom:c18-deep"] = func(r run.Replay) string {
+		if len(r.Calls) == 0 {
+			return "malformed replay"
+		}
+		parts := strings.SplitN(r.Calls[0].Expr, ":", 4)
+		if len(parts) != 4 {
+			return "malformed replay"
+		}
+		n, _ := strconv.Atoi(parts[2])
+		return c18DeepVerdict(parts[1], n, parts[3])
+	}
 }
